@@ -587,3 +587,50 @@ package eio
 //@     update userclosed = userclosed + 1
 //@   ensures userclosed == 1 [C06.eio.cli.once]
 //@   ensures reason != ReasonTransportClose && reason != ReasonTransportError && old(s.transport) != nil ==> tclosed == 1 [C06.eio.cli.close.ends.the.transport]
+
+// C17 (WebTransport): a connection that names a session id is an upgrade of THAT session: an unknown or closed id is
+// answered with the protocol's error and the candidate closed - it never gets a session of its own; only a connection
+// that names none is a new session.
+//@ func (*Server).onWebTransport
+//@   opt safety off
+//@   requires s != nil && s.store != nil && w != nil && r != nil
+//@   ghost hsid string = ""
+//@   ghost hserr bool = false
+//@   ghost looked int = 0
+//@   ghost found bool = false
+//@   ghost made int = 0
+//@   callsite writeServerError skip
+//@   callsite NewCallbacks skip
+//@   callsite NewServerTransport skip
+//@   callsite Handshake skip
+//@     updateafter hsid = result0
+//@     updateafter hserr = result1 != nil
+//@   callsite (*Server).generateSID skip
+//@     requires !hserr && hsid == "" [C17.wt.new.id.only.without.one]
+//@   callsite (*Server).newSocket skip
+//@     requires !hserr && hsid == "" && made == 0 [C17.wt.new.session.only.without.an.id]
+//@     update made = made + 1
+//@   callsite (*socketStore).get skip
+//@     requires arg0 == hsid && hsid != "" [C17.wt.looks.up.the.named.session]
+//@     update looked = looked + 1
+//@     updateafter found = result1
+//@   callsite (*Server).maybeUpgrade skip
+//@     requires looked == 1 && found && made == 0 [C17.wt.upgrade.only.of.a.live.session]
+//@   callsite (*Server).newHandshakePacket skip
+//@   callsite (*Server).onError skip
+//@   callsite WriteHeader skip
+//@   callsite Close skip
+//@   callsite PostHandshake skip
+//@   callsite Log skip
+//@   callsite Name skip
+//@   callsite Transport skip
+//@   ensures !hserr && hsid != "" ==> made == 0 [C17.wt.named.session.never.creates.one]
+// C17 / C07: a request that names a live session and an upgrade transport touches that session only once the candidate
+// has been validated and its probe has arrived: maybeUpgrade itself sends nothing on the session (the NOOP that forces
+// a poll cycle is sent by the probe handler), so a mismatched or junk request leaves the session alone.
+//@ func (*Server).maybeUpgrade
+//@   opt safety off
+//@   callsite (*serverSocket).Send
+//@     requires false [C17.upgrade.request.sends.nothing.on.the.session]
+//@   callsite (*serverSocket).Send go
+//@     requires false [C17.upgrade.request.sends.nothing.on.the.session.async]
